@@ -316,6 +316,10 @@ class Check:
     # -- proof side -------------------------------------------------------
     def prove(self, module, theorems):
         """gen + make + scans. Sets self.proof_ok."""
+        with Lock("prove"):
+            return self._prove(module, theorems)
+
+    def _prove(self, module, theorems):
         self.gen_ok, gen_out = run_gen()
         log(gen_out)
         modules = [module] if isinstance(module, str) else list(module)
